@@ -132,6 +132,7 @@ pub fn write_foreign(ts: &TileSet, target: &str, dir: &Path, rng: &mut Rng) -> R
 		"versatiles" => {
 			let mut o = ivt::EncOpts::random(rng);
 			o.pooled_blobs = rng.chance(0.3);
+			o.sloppy_zoom_bytes = rng.chance(0.2);
 			std::fs::write(&path, ivt::encode(ts, &o, rng)).map_err(|e| e.to_string())?
 		}
 		"pmtiles" => {
@@ -326,6 +327,16 @@ pub fn build_source(rng: &mut Rng, kind: usize, dir: &Path, max_tiles: usize) ->
 				}
 				known.insert((k.0, x, y));
 				known.insert(*k);
+			}
+			// now and then the input compression is "overridden" after construction — with the value the source
+			// declares anyway, so nothing changes
+			let mut r = r;
+			if rng.chance(0.3) {
+				let declared = r.get_parameters().tile_compression;
+				let inner_declared = if out_comp.is_none() && !force { Some(declared) } else { None };
+				if let Some(c) = inner_declared {
+					r.override_compression(c);
+				}
 			}
 			Ok(Built { reader: Box::new(r), class, describe: desc, known, model: None, logs: None })
 		}
